@@ -123,6 +123,11 @@ def gen_history(rng, length: int, backwards: bool = False) -> dict:
             add(op="upinfo", id=an_id(), term=rng.choice(terms))
         elif r < 0.89:
             add(op="cleanup_uploads", keep=rng.choice([0, 1, 2, 3, 5, 10, 1024]))
+            # ask about old and new survivors right away, with a tight count threshold
+            for _ in range(rng.randint(1, 3)):
+                if recent:
+                    i, term, z = rng.choice(recent)
+                    add(op="needs", id=i, term=term, mu=rng.choice([1, 2, 3]), mb=2 * MIB20 + 9, mt=10**13, dt=rng.choice([d for d in dts if d >= 0]))
         elif r < 0.93:
             add(op="set", id=an_id(), d=rng.choice(pool))
         elif r < 0.96:
@@ -160,6 +165,9 @@ def structured_cases():
     # upload-table clean-up
     yield h([g("a"), g("b"), g("c"), mk(0), mk(1), mk(2), {"op": "cleanup_uploads", "keep": 2, "dt": 1}, nd(0), nd(1), nd(2),
              {"op": "cleanup_uploads", "keep": 0, "dt": 1}, nd(2)])
+    # clean-up must keep the newest records: the oldest survivor's later arrivals stay counted
+    yield h([g("a", (1, 9)), g("b", (1, 9)), g("c", (1, 9)), mk(0), mk(1), mk(2), {"op": "cleanup_uploads", "keep": 1, "dt": 1},
+             nd(0, mu=1), nd(0, mu=2), nd(2, mu=1), nd(1, mu=3)])
     # D16: equal upload timestamps — the later arrival is not counted
     yield h([g("a"), g("b"), mk(0, dt=1), mk(1, dt=0), nd(0, mu=1, dt=0)])
     # ISO text ordering of upload_time: whole second vs microseconds
@@ -205,7 +213,7 @@ def run(ctx: Ctx):
     run_corpus(ctx, PROP, check_case)
     budget = ctx.budget_s * (0.72 if ctx.quick else 0.85)
     for c in cases(ctx):
-        if ctx.elapsed() > budget:
+        if ctx.elapsed() > budget or len(ctx.violations) + len(ctx.mismatches) >= 40:
             break
         check_case(ctx, c)
         kinds = [o["op"] for o in c["ops"]]
